@@ -187,3 +187,11 @@ Proof. exact PipeMatcher.pipe_reject_genuine. Qed.
 
 Print Assumptions C10_matcher_sound.
 Print Assumptions C10_matcher_rejections_genuine.
+
+(* Tie to the source: the Go functions the model transcribes still contain exactly the synchronisation operations
+   (select arms, channel operations, goroutine starts, timer/context/sync calls) the model accounts for.
+   Generated/Census.v is re-extracted from the Go source on every run (tools/gofacts/census.go). *)
+From Juniper Require Translated.CensusC10.
+Theorem C10_source_census : Translated.CensusC10.census_expected_C10.
+Proof. exact Translated.CensusC10.census_C10_ok. Qed.
+Print Assumptions C10_source_census.
